@@ -253,11 +253,20 @@ pub fn eval(ctx: &mut Ctx, op: &str, args: &[Sexp]) -> Option<String> {
                 Ok(Err(e)) => format!("err {}", err_name(&e)),
             })
         }
-        "sercap" => {
+        "sercap" | "collectcap" => {
             let framing = args.first()?.atom()?;
             let storage = args.get(1)?.atom()?;
             let cap: usize = args.get(2)?.atom()?.parse().ok()?;
-            let v = DVal::from_sexp(args.get(3)?)?;
+            // collectcap: a value serialised through collect_str whose Display writes the given pieces
+            let v = if op == "collectcap" {
+                let mut cs = Vec::new();
+                for a in &args[3..] {
+                    cs.push(String::from_utf8(unhex(a.atom()?)?).ok()?);
+                }
+                DVal::Display(cs)
+            } else {
+                DVal::from_sexp(args.get(3)?)?
+            };
             let full = unbounded(framing, &v)?;
             let (res, mem): (SerRes, Vec<u8>) = match storage {
                 "slice" => {
@@ -783,6 +792,30 @@ pub fn gen_c05(r: &mut Rng, thorough: bool, out: &mut Vec<String>) {
             }
         }
     }
+    // Display-collected strings (collect_str) into bounded storage: piece patterns x every capacity
+    let mut patterns: Vec<Vec<String>> = vec![
+        vec![], vec!["".into()], vec!["a".into()], vec!["printer.example".into(), ":".into(), "80".into()],
+        vec!["<".into(), "x".repeat(70), ">".into()], vec!["ab".into(), "".into(), "cd".into(), "e".into()],
+        vec!["x".repeat(126), "y".into(), "z".into()], vec!["k".into(); 40],
+    ];
+    for _ in 0..(if thorough { 300 } else { 25 }) {
+        let k = r.range(1, 6);
+        patterns.push((0..k).map(|_| { let l = *r.pick(&[0usize, 1, 1, 2, 3, 5, 8, 15, 16, 17, 40, 63, 64, 65, 70, 130]); crate::ops_schema::rand_path(r, l) }).collect());
+    }
+    for (pi, ps) in patterns.iter().enumerate() {
+        let total: usize = ps.iter().map(|p| p.len()).sum();
+        let hexes: String = ps.iter().map(|p| format!(" {}", hex(p.as_bytes()))).collect();
+        for framing in if pi % 4 == 0 { vec!["plain", "cobs", "CRC_32_ISO_HDLC"] } else { vec!["plain", *r.pick(&["cobs", "CRC_16_XMODEM", "CRC_8_SMBUS"])] } {
+            let full = total + 1 + (total >= 128) as usize + if framing == "cobs" { 2 + total / 254 } else if framing == "plain" { 0 } else { 4 };
+            let caps: Vec<usize> = if full <= 48 { (0..=full + 2).collect() } else { (0..=6).chain((8..full).step_by(7)).chain(full - 6..=full + 2).collect() };
+            for cap in caps {
+                out.push(format!("collectcap {} slice {}{}", framing, cap, hexes));
+                if HCAPS.contains(&cap) && (framing == "plain" || framing == "cobs" || HVEC_ALGS.contains(&framing)) {
+                    out.push(format!("collectcap {} hvec {}{}", framing, cap, hexes));
+                }
+            }
+        }
+    }
     // Display-collected strings into bounded buffers: any error is acceptable, never success when too small
     // (collect_str reports CollectStrError for the payload pass) — covered through `spec`/`collect` in C02.
 }
@@ -910,6 +943,29 @@ pub fn gen_c06(r: &mut Rng, thorough: bool, out: &mut Vec<String>) {
     for n in [252usize, 253, 254, 255, 506, 507, 508, 509] {
         out.push(format!("cobsval bytes {}", DVal::Bytes(vec![9u8; n])));
     }
+    // several block writes in one value: every alignment of two string bodies around the first two block
+    // boundaries (the second body starts in a block that was opened by a full block / by a zero / fresh)
+    let t2 = DTy::Tuple(vec![DTy::Str, DTy::Str, DTy::U(8)]);
+    let step = if thorough { 1 } else { 3 };
+    for n1 in (238..=262usize).step_by(step) {
+        for n2 in 238..=262usize {
+            let v = DVal::Tuple(vec![DVal::Str("a".repeat(n1)), DVal::Str("b".repeat(n2)), DVal::U(8, 7)]);
+            out.push(format!("cobsval {} {}", t2, v));
+        }
+    }
+    let t3 = DTy::Tuple(vec![DTy::Bytes, DTy::Str, DTy::Bytes, DTy::U(16)]);
+    for _ in 0..(if thorough { 4000 } else { 300 }) {
+        let mut len = |r: &mut Rng| match r.below(4) { 0 => r.range(0, 20), 1 | 2 => r.range(230, 280), _ => r.range(490, 520) } as usize;
+        let (a, b, c) = (len(r), len(r), len(r));
+        let zero_free = r.chance(2, 3);
+        let bytes = |r: &mut Rng, n: usize| -> Vec<u8> { (0..n).map(|_| if zero_free || r.below(40) > 0 { 1 + r.below(255) as u8 } else { 0 }).collect() };
+        let v = DVal::Tuple(vec![DVal::Bytes(bytes(r, a)), DVal::Str("q".repeat(b)), DVal::Bytes(bytes(r, c)), DVal::U(16, 300)]);
+        out.push(format!("cobsval {} {}", t3, v));
+        if let Ok(f) = postcard::to_allocvec_cobs(&v) {
+            out.push(format!("sercap cobs slice {} {}", f.len(), v));
+            out.push(format!("sercap cobs slice {} {}", f.len() - 1, v));
+        }
+    }
 }
 
 pub fn gen_c07(r: &mut Rng, thorough: bool, out: &mut Vec<String>) {
@@ -947,6 +1003,7 @@ pub fn gen_c07(r: &mut Rng, thorough: bool, out: &mut Vec<String>) {
         let rn = r.range(0, 16) as usize;
         out.push(format!("cobsde {} {}", t, hex(&r.bytes(rn))));
     }
+    gen_c07_long(r, thorough, out);
     // long frames with bad / good 0xFF code bytes
     for n in [253usize, 254, 255] {
         let mut f = vec![0xFFu8];
@@ -960,6 +1017,76 @@ pub fn gen_c07(r: &mut Rng, thorough: bool, out: &mut Vec<String>) {
     }
 }
 
+/// reference COBS encoder (frame without the sentinel), written independently of the crates under test
+pub fn ref_cobs_encode(m: &[u8]) -> Vec<u8> {
+    let mut out = vec![0u8];
+    let mut code_at = 0usize;
+    let mut code = 1u8;
+    let mut pending = true;
+    for &b in m {
+        pending = true;
+        if b == 0 {
+            out[code_at] = code;
+            code_at = out.len();
+            out.push(0);
+            code = 1;
+        } else {
+            out.push(b);
+            code += 1;
+            if code == 0xFF {
+                out[code_at] = code;
+                code_at = out.len();
+                out.push(0);
+                code = 1;
+                pending = false;
+            }
+        }
+    }
+    if pending || m.is_empty() || m.last() == Some(&0) {
+        out[code_at] = code;
+    } else {
+        out.pop();
+    }
+    out
+}
+
+/// long first frames: payloads whose length sits on / next to a multiple of 254, decoded as a type whose length
+/// prefix claims one or two bytes fewer / exactly / more than the payload holds (C07: exactly plain decoding of
+/// the reference payload — no phantom byte after a full block, no byte lost)
+fn gen_c07_long(r: &mut Rng, thorough: bool, out: &mut Vec<String>) {
+    let ps: Vec<usize> = if thorough { (250..=260).chain(504..=514).chain(760..=766).collect() } else { vec![252, 253, 254, 255, 256, 507, 508, 509, 510, 762] };
+    for p in ps {
+        for zero_free in [true, false] {
+            // payload = varint(claim) ++ body, total length p
+            for delta in [-2i64, -1, 0, 1, 2] {
+                let body_len = p - 2; // claims 128..16383 take two varint bytes
+                let claim = (body_len as i64 + delta).max(128) as usize;
+                let mut payload = vec![(claim & 0x7F) as u8 | 0x80, (claim >> 7) as u8];
+                payload.extend((0..body_len).map(|i| if zero_free || i % 61 != 7 { 1 + (r.below(255) as u8) } else { 0 }));
+                let mut frame = ref_cobs_encode(&payload);
+                // a message ending exactly on a full block has two accepted encodings: with and without an
+                // empty closing block (the cobs crate's encoder writes the closing `01`)
+                if frame.len() % 255 == 0 && frame[frame.len() - 255] == 0xFF {
+                    let mut closed = frame.clone();
+                    closed.extend_from_slice(&[0x01, 0x00]);
+                    for t in ["bytes", "str", "(seq u8)", "(tuple bytes u8)"] {
+                        out.push(format!("cobsde {} {}", t, hex(&closed)));
+                    }
+                    closed.extend_from_slice(&[0x02, 0x09, 0x00]);
+                    out.push(format!("cobsde bytes {}", hex(&closed)));
+                }
+                frame.push(0);
+                for t in ["bytes", "str", "(seq u8)", "(tuple bytes u8)"] {
+                    out.push(format!("cobsde {} {}", t, hex(&frame)));
+                }
+                // followed by a second frame: the remainder must start right after the first sentinel
+                frame.extend_from_slice(&[0x02, 0x09, 0x00, 0x05]);
+                out.push(format!("cobsde bytes {}", hex(&frame)));
+            }
+        }
+    }
+}
+
 pub fn gen_c20(r: &mut Rng, thorough: bool, out: &mut Vec<String>) {
     let n = if thorough { 8000 } else { 500 };
     let algs = ["CRC_32_ISO_HDLC", "CRC_16_XMODEM", "CRC_8_SMBUS", "CRC_64_XZ"];
@@ -969,9 +1096,22 @@ pub fn gen_c20(r: &mut Rng, thorough: bool, out: &mut Vec<String>) {
     }
     cases.push((DTy::Bytes, DVal::Bytes(vec![3u8; 260])));
     cases.push((DTy::Bytes, DVal::Bytes(vec![0u8; 300])));
+    // plain encodings whose zero-free runs end on / next to a COBS block boundary, and block writes whose
+    // length sits on a power of two (a modifier's staging buffer or stride)
+    for n in (249..=256usize).chain(503..=510).chain([13, 14, 15, 16, 17, 30, 31, 32, 33, 62, 63, 64, 65, 126, 127, 128, 129]) {
+        cases.push((DTy::Bytes, DVal::Bytes((0..n).map(|i| 1 + (i % 255) as u8).collect())));
+        if n % 3 == 0 {
+            cases.push((DTy::Tuple(vec![DTy::Str, DTy::Str, DTy::U(8)]), DVal::Tuple(vec![DVal::Str("a".repeat(n)), DVal::Str("b".repeat(n + 1)), DVal::U(8, 7)])));
+            cases.push((DTy::Tuple(vec![DTy::U(8), DTy::Bytes, DTy::U(128)]), DVal::Tuple(vec![DVal::U(8, 0), DVal::Bytes(vec![0xEE; n]), DVal::U(128, u128::MAX)])));
+        }
+    }
     for (i, (t, v)) in cases.iter().enumerate() {
         if has_zero_width_seq(t) {
             continue;
+        }
+        // the allocating COBS entry points against the explicit Cobs<AllocVec> stack of the model
+        if i % 4 == 1 || postcard::to_allocvec(v).map(|b| b.len() > 100).unwrap_or(false) {
+            out.push(format!("cobsval {} {}", t, v));
         }
         out.push(format!("rec override {}", v));
         out.push(format!("rec default {}", v));
